@@ -325,6 +325,8 @@ fn open_index(config: &crate::config::Config) -> Result<(bool, Index)> {
     if config.meta_path.is_file() {
         fs::remove_file(&config.meta_path)?;
     }
+    #[cfg(feature = "verif")]
+    crate::verif::store_step("meta_invalidated");
 
     if config.index_path.is_dir() {
         log::info!("removing index: {}", config.index_path.display());
